@@ -112,15 +112,17 @@ func loopbackSessions(r *harness.EvRun) {
 		quarterMB = append(quarterMB, ref.TypedFrame(1230, 8, func(k int) byte { return byte(i + k) })...)
 	}
 	cases := []struct {
-		name     string
-		quiet    bool
-		sessions []sess
+		name      string
+		quiet     bool
+		sessions  []sess
+		halfClose bool
 	}{
-		{"slow upstream: 256 KiB from the client, the server reads 1 KiB every 2 ms, the client hangs up at once", true, []sess{{quarterMB, nil}}},
-		{"one session, frames and text", false, []sess{{append(append([]byte{}, f...), htmlF...), []byte("ICY 200 OK\r\n")}}},
-		{"one session, quiet", true, []sess{{append(append([]byte("GET /<mount> HTTP/1.0\r\n\r\n"), htmlF...), 0xD3), []byte{0x00, 0xD3, '<', 0xFF}}}},
-		{"70001 bytes each way", false, []sess{{big, big[:50000]}}},
-		{"two sessions, the first ends inside a frame", false, []sess{{append(append([]byte{}, f...), htmlF[:5]...), []byte("A")}, {htmlF, []byte("B<")}}},
+		{"the server shuts down its sending side after its last byte, the client uploads afterwards", true, []sess{{append(append([]byte{}, big[:3000]...), htmlF...), []byte("ICY 200 OK\r\n")}}, true},
+		{"slow upstream: 256 KiB from the client, the server reads 1 KiB every 2 ms, the client hangs up at once", true, []sess{{quarterMB, nil}}, false},
+		{"one session, frames and text", false, []sess{{append(append([]byte{}, f...), htmlF...), []byte("ICY 200 OK\r\n")}}, false},
+		{"one session, quiet", true, []sess{{append(append([]byte("GET /<mount> HTTP/1.0\r\n\r\n"), htmlF...), 0xD3), []byte{0x00, 0xD3, '<', 0xFF}}}, false},
+		{"70001 bytes each way", false, []sess{{big, big[:50000]}}, false},
+		{"two sessions, the first ends inside a frame", false, []sess{{append(append([]byte{}, f...), htmlF[:5]...), []byte("A")}, {htmlF, []byte("B<")}}, false},
 	}
 	if r.NViolations() > 0 {
 		r.Extra["real_binary_pass"] = "skipped: a violation was already found by the exploration"
@@ -134,7 +136,7 @@ func loopbackSessions(r *harness.EvRun) {
 			for _, s := range c.sessions {
 				sessions = append(sessions, [2][]byte{s.c, s.s})
 			}
-			kind, detail = runLoopback(bin, c.quiet, sessions)
+			kind, detail = runLoopback(bin, c.quiet, sessions, c.halfClose)
 			if kind == "" || kind == "skip" {
 				break
 			}
@@ -163,7 +165,9 @@ func freePort() int {
 }
 
 // runLoopback runs the sessions one after the other through one proxy process.
-func runLoopback(bin string, quiet bool, sessions [][2][]byte) (kind, detail string) {
+// With halfClose the upstream server shuts down its sending side once its bytes are
+// out and keeps reading; the client starts to upload only after it has all of them.
+func runLoopback(bin string, quiet bool, sessions [][2][]byte, halfClose bool) (kind, detail string) {
 	dir, err := os.MkdirTemp("", "c19tcp")
 	if err != nil {
 		return "skip", err.Error()
@@ -189,6 +193,9 @@ func runLoopback(bin string, quiet bool, sessions [][2][]byte) (kind, detail str
 				return
 			}
 			c.Write(s[1])
+			if tc, ok := c.(*net.TCPConn); ok && halfClose {
+				tc.CloseWrite()
+			}
 			var got []byte
 			buf := make([]byte, 4096)
 			slow := len(s[0]) >= 200*1024 // the big one-way case: a server that is slower than the client
@@ -264,6 +271,12 @@ func runLoopback(bin string, quiet bool, sessions [][2][]byte) (kind, detail str
 			}
 			done <- got
 		}()
+		var early []byte
+		if halfClose {
+			// all the server's bytes are here, so its FIN has reached the proxy as well
+			early = <-done
+			time.Sleep(300 * time.Millisecond)
+		}
 		for off := 0; off < len(s[0]); {
 			n := 1000 + 37*off%1500
 			if off+n > len(s[0]) {
@@ -274,7 +287,10 @@ func runLoopback(bin string, quiet bool, sessions [][2][]byte) (kind, detail str
 			}
 			off += n
 		}
-		fromServer := <-done
+		fromServer := early
+		if !halfClose {
+			fromServer = <-done
+		}
 		// the operator looks at the status page while the session is open
 		if resp, err := http.Get(fmt.Sprintf("http://127.0.0.1:%d/status/report", pCtl)); err == nil {
 			body, _ := io.ReadAll(resp.Body)
